@@ -70,7 +70,7 @@ def near(draw, x, lo=-12.0, hi=-1.0):
 @st.composite
 def ratio_tuple(draw, n):
     """n positive numbers with pairwise ratios in [1e-6, 1e6] and structured degeneracies"""
-    mode = draw(st.sampled_from(["generic", "generic", "pair", "triple", "near1", "two-near1", "equal", "perm1"]))
+    mode = draw(st.sampled_from(["generic", "generic", "pair", "triple", "near1", "two-near1", "equal", "perm1", "hier"]))
     base = draw(logu(1e-3, 1e3))
     xs = [base * draw(logu(1e-3, 1e3)) for _ in range(n)]
     if mode == "pair" and n >= 2:
@@ -91,6 +91,11 @@ def ratio_tuple(draw, n):
             xs = [1.0 if i < k else x for i, x in enumerate(xs)]
     elif mode == "perm1":
         xs[0] = 1.0
+    elif mode == "hier" and n >= 3:
+        # doubly hierarchical: two arguments far below the third, moderately separated from each other
+        big = base * draw(logu(1.0, 1e3))
+        small = big * draw(logu(1e-6, 1e-3))
+        xs = [small, min(small * draw(logu(1.0, 1e2)), big * 1e-2), big] + xs[3:]
     xs = [min(max(x, 1e-6), 1e6) for x in xs]
     mx, mn = max(xs), min(xs)
     if mx / mn > 1e6:
